@@ -369,6 +369,41 @@ def ready_none_blocks(ctx, body):
     return out
 
 
+def all_groups_empty_test(ctx, b, x):
+    """`x` (a boolean expression of a group-loop function b) says that no group holds anything:
+    groups.iter().all(|g| g[.field].is_empty()) over the plain iterator of the whole groups vector, or `remaining counter == 0`
+    for the counter that poll_next decrements once per yield.  -> "all" | "rem" | None"""
+    x = strip_refs(x)
+    if x[0] == "call" and re.search(r"core::iter::Iterator>?::all$", x[1] or "") and len(x[2]) == 2:
+        it, cl = strip_refs(x[2][0]), x[2][1]
+        plain = it[0] == "call" and re.search(r"core::slice::<impl \[T\]>::iter$|IntoIterator>::into_iter$", it[1] or "") is not None
+        if plain:
+            src = strip_refs(it[2][0])
+            while src[0] == "call" and re.search(r"Deref>::deref$|DerefMut>::deref_mut$|as_slice$", src[1] or "") and src[2]:
+                src = strip_refs(src[2][0])
+            plain = src[0] == "proj" and src[2] and src[2][-1].startswith(".")
+        if plain and cl[0] == "agg" and cl[1].startswith("closure:"):
+            cb = ctx.facts.bodies.get(cl[1][len("closure:"):])
+            if cb is not None:
+                r_ = strip_refs(ctx.flow(cb).local_expr(0))
+                if r_[0] == "call" and (r_[1] or "") in ctx.facts.bodies and re.search(r"::is_empty$", r_[1]) and r_[2]:
+                    a_ = strip_refs(r_[2][0])
+                    base = a_
+                    while base[0] == "proj":
+                        base = strip_refs(base[1])
+                    if base == ("param", 2):
+                        return "all"
+        return None
+    if x[0] == "binop" and x[1] == "Eq":
+        for l_, r_ in ((x[2], x[3]), (x[3], x[2])):
+            if r_[0] == "const" and r_[2] == "0" and l_[0] == "proj" and l_[2] and l_[2][-1].startswith("."):
+                fld = l_[2][-1]
+                fl = ctx.flow(b)
+                if any(f2 == fld and is_inc_of(val, f2) == -1 for (bb, i, f2, val, root, pe) in self_field_stores(b, fl)):
+                    return "rem"
+    return None
+
+
 def r2_4(ctx, R, counter_field):
     ctx.rule("R2.4", "Ready(None) only behind emptiness: DRAIN constructs Ready(None) only on the true edge of a test "
                      "that the slot-map counter is 0; unbounded variants only on the true edge of groups.is_empty(); every "
@@ -436,6 +471,8 @@ def r2_4(ctx, R, counter_field):
                     x = lab[1]
                     if lab[2] is True and x[0] == "call" and x[1] and re.search(r"alloc::vec::Vec::<.*>::is_empty$", x[1]):
                         return True
+                    if lab[2] is True and all_groups_empty_test(ctx, b, x) is not None:
+                        return True       # every group empty / nothing remaining: the collection holds nothing
                     # groups.len() == 0 (possibly read into a local first)
                     if x[0] == "binop" and ((x[1] == "Eq" and lab[2] is True) or (x[1] == "Ne" and lab[2] is False)):
                         for l_, r_ in ((x[2], x[3]), (x[3], x[2])):
@@ -718,7 +755,7 @@ def r2_7(ctx, R, counter, head):
             if not (e[0] == "agg" and e[1].startswith(sm + "::")):
                 continue
             n += 1
-            ops = dict(zip(e[3], e[2]))
+            ops = __import__('lib_inter').flat_ops(ctx, e)
             chain = []
             x = ops[slots_field]
             rng = None
